@@ -96,6 +96,17 @@ def chain(n, link, bottom):
     leaves = {"scalar": 7, "str": "leaf", "null": None, "true": True, "float": 1.5}
     cur = leaves.get(bottom)
     has_leaf = bottom in leaves
+    if link in ("odict", "sublist"):
+        # every container an instance of a SUBCLASS of dict / list
+        import collections
+        from mc.core.impl import SubList
+        for i in range(n):
+            inner = [cur] if (has_leaf or i > 0) else []
+            if link == "odict":
+                cur = collections.OrderedDict([("a", inner[0])]) if inner else collections.OrderedDict()
+            else:
+                cur = SubList(inner)
+        return cur
     for i in range(n):
         as_dict = link == "dict" or (link == "alt" and i % 2 == 0)
         inner = [cur] if (has_leaf or i > 0) else []
@@ -568,7 +579,7 @@ def run_shard(desc):
                 for n in (limit - 1, limit, limit + 1):
                     if n < 1:
                         continue
-                    for link in ("list", "alt"):
+                    for link in ("list", "alt", "odict", "sublist"):
                         spec = {"kind": "chain", "n": n, "link": link, "bottom": "scalar", "where": "alone"}
                         for nd in (False, True):
                             for q in ("$..*", "$..a"):
